@@ -531,7 +531,7 @@ def small_rank_cases(tier, seed):
 
 def cases(tier, seed):
     quick = tier == "quick"
-    n_rb = 60 if quick else 600
+    n_rb = 60 if quick else 2500
     n_pairs = 12 if quick else 25
     yield from small_rank_cases(tier, seed)
     for vendor in ("huawei", "cisco"):
@@ -543,7 +543,7 @@ def cases(tier, seed):
                 old, new = g.rand_pair(rnd, 0.55)
                 yield dict(kind="rank", vendor=vendor, rul=("R1" if k % 2 else "R2"), order=order, old=old, new=new)
     rnd = g.rng(seed, "c08sort")
-    for _ in range(300 if quick else 5000):
+    for _ in range(300 if quick else 20000):
         yield dict(kind="sort", tree=rand_keyed_tree(rnd))
     for s in g.corpus():
         yield dict(kind="shipped", name=s["name"], max_del=(4 if quick else 12))
@@ -554,12 +554,12 @@ def cases(tier, seed):
     for vendor, model, neg in ALL_MODELS:
         rules = shipped_order_rules(vendor) or []
         rnd = g.rng(seed, "c08oc", model)
-        for _ in range(25 if quick else 400):
+        for _ in range(25 if quick else 1000):
             yield dict(kind="oc", rb="shipped", model=model, cfg=synth_cfg_for_vendor(rnd, rules, neg))
     for vendor in ("huawei", "arista"):
         neg = g.VENDORS[vendor]["neg"]
         rnd = g.rng(seed, "c08ocs", vendor)
-        for _ in range(150 if quick else 2500):
+        for _ in range(150 if quick else 8000):
             yield dict(kind="oc", rb="synthetic", vendor=vendor, order=rand_order_text(rnd, neg), cfg=rand_cfg_unmentioned(rnd, neg))
 
 
